@@ -4,6 +4,7 @@
 #![allow(clippy::all)]
 mod common;
 mod g_algebra;
+mod g_prim;
 pub mod polygen;
 
 use common::*;
@@ -31,6 +32,10 @@ fn main() {
         "c15" => g_algebra::c15(&mut rng, &mut out, n),
         "c14" => g_algebra::c14(&mut rng, &mut out, n),
         "c16" => g_algebra::c16(&mut rng, &mut out, n),
+        "c02" => g_prim::c02(&mut rng, &mut out, n),
+        "c03" => g_prim::c03(&mut rng, &mut out, n),
+        "c13" => g_prim::c13(&mut rng, &mut out, n),
+        "c15b" => g_prim::c15b(&mut rng, &mut out, n),
         _ => {
             eprintln!("unknown group {}", group);
             std::process::exit(2);
